@@ -100,11 +100,30 @@ class Ctx:
         return n
 
 
+class IdMap(dict):
+    """declaration by node id; ids carry a per-dump prefix 'D<n>:'.  With stable ids (ASLR off, verified by the driver) a
+    declaration that is only referenced in one dump is found in another dump under the same raw id."""
+    stable = False
+    def __init__(self):
+        super().__init__(); self.raw = {}
+    def __setitem__(self, k, v):
+        super().__setitem__(k, v)
+        r = k.split(':', 1)[-1]
+        cur = self.raw.get(r)
+        if cur is None or len(v.get('inner', [])) > len(cur.get('inner', [])): self.raw[r] = v
+    def get(self, k, default=None):
+        v = super().get(k)
+        if not self.stable or not isinstance(k, str): return v if v is not None else default
+        w = self.raw.get(k.split(':', 1)[-1])
+        if w is not None and (v is None or len(w.get('inner', [])) > len(v.get('inner', []))): return w
+        return v if v is not None else default
+
 class Translator:
     def __init__(self, docs, cfg):
         self.docs = docs
         self.cfg = cfg
-        self.byid = {}
+        self.byid = IdMap()
+        self.byid.stable = cfg.get('stable_ids', False)
         for d in docs:
             self._index(d)
         self.records = {}
@@ -148,6 +167,8 @@ class Translator:
         q = strip_ns(q).strip()
         for a, b in self.cfg.get('type_subst', []):
             q = q.replace(a, b)
+        for a, b in self.cfg.get('type_resubst', []):
+            q = re.sub(a, b, q)
         ref = False; const = False; rref = False
         while True:
             q0 = q
@@ -383,7 +404,7 @@ class Translator:
         if ck in ('UncheckedDerivedToBase', 'DerivedToBase'):
             src = self.ctype(self.qt(sub)); dst = self.ctype(self.qt(n))
             e = self.E(sub, cx)
-            if src.cls == dst.cls and src.cls in ('sp', 'wp', 'atomic', 'mutex', 'function'):
+            if src.cls == dst.cls and src.cls in ('sp', 'wp', 'atomic', 'mutex', 'function', 'mapit', 'listit', 'vecit'):
                 return e
             if src.cls == 'ptr' and dst.cls == 'ptr':
                 # pointer to derived -> pointer to base
@@ -423,6 +444,11 @@ class Translator:
         if ck in ('NoOp', 'LValueToRValue'): return self.E(n['inner'][0], cx)
         if ck in ('IntegralCast',):
             t = self.ctype(self.qt(n)); return f'(({t.c})({self.E(n["inner"][0], cx)}))'
+        if ck == 'BaseToDerived':
+            # pointer to a base subobject -> pointer to the enclosing derived object (CRTP-style mixin access)
+            sub = n['inner'][0]; src = self.ctype(self.qt(self.skip(sub))); dst = self.ctype(self.qt(n))
+            if src.cls == 'ptr' and dst.cls == 'ptr' and src.elem.cls == 'record' and dst.elem.cls == 'record':
+                return f'BASE_TO_DERIVED({dst.elem.c}, base_{src.elem.c}, {self.E(sub, cx)})'
         raise Unsupported(f'static_cast {ck} in {cx.cname}')
     E_CStyleCastExpr = E_CXXStaticCastExpr
 
@@ -606,6 +632,7 @@ class Translator:
     def call_function(self, decl, self_arg, args, cx):
         params = self.params_of(decl)
         a = self.pass_args(params, args, cx)
+        a = self.unsequenced_args(params, a, cx)
         cn = self.func_cname(decl)
         if self_arg is not None: a = [self_arg] + a
         if self.has_body(decl):
@@ -616,6 +643,34 @@ class Translator:
         text = f'{cn}({", ".join(a)})'
         if self.ret_ctype(decl).ref: text = f'(*{text})'
         return self.wrap_call(text, decl, cx)
+
+    def unsequenced_args(self, params, a, cx):
+        """C++ leaves the evaluation order of function arguments (including the initialisation of by-value parameters)
+        unspecified.  When one argument moves from an object that another argument reads, both orders are emitted
+        under a nondeterministic choice (g++ evaluates right to left, clang++ left to right)."""
+        ps = [p for p in params if self.ctype(self.qt(p)).cls != 'empty']
+        if len(a) < 2 or len(ps) != len(a): return a
+        hazard = False
+        for i, x in enumerate(a):
+            for m in re.finditer(r'\w+_MOVE\(&(\w+)\)', x):
+                v = m.group(1)
+                if any(j != i and re.search(r'\b' + re.escape(v) + r'\b', y) for j, y in enumerate(a)): hazard = True
+        if not hazard: return a
+        decls = []; assigns = []; out = []
+        for p, x in zip(ps, a):
+            pt = self.ctype(self.qt(p)); t = cx.tmp('u')
+            m = re.match(r'^&\(([\w ]+)\)\{(.*)\}$', x)
+            if m:       # reference bound to a temporary: the temporary itself is hoisted
+                decls.append(f'{m.group(1)} {t};'); assigns.append(f'{t} = {m.group(2)};'); out.append(f'&{t}')
+            elif pt.ref:
+                decls.append(f'{pt.c} *{t};'); assigns.append(f'{t} = {x};'); out.append(t)
+            else:
+                decls.append(f'{pt.c} {t};'); assigns.append(f'{t} = {x};'); out.append(t)
+        cx.pre.append('/* unsequenced argument evaluation (one argument moves from an object another one reads): both orders */')
+        cx.pre.extend(decls)
+        cx.pre.append('if (nondet_bool()) { ' + ' '.join(assigns) + ' } else { ' + ' '.join(reversed(assigns)) + ' }')
+        self.notes.append(f'{cx.cname}: call with unsequenced move/read of the same object; both argument evaluation orders are explored')
+        return out
 
     def wrap_call(self, text, decl, cx):
         return text
@@ -733,6 +788,11 @@ class Translator:
             if name == 'empty': return f'WVEC_EMPTY({optr()})'
             if name == 'push_back' and len(args) == 1: return f'WVEC_PUSH_BACK({optr()}, {self.addr_of(args[0], cx)})'
             if name == 'erase' and len(args) == 1: return f'WVEC_ERASE({optr()}, {self.E(args[0], cx)})'
+        if cls == 'map':
+            if name == 'find' and len(args) == 1: return f'WMAP_FIND({optr()}, {self.E(args[0], cx)})'
+            if name == 'end' and not args: return f'WMAP_END({optr()})'
+            if name == 'begin' and not args: return f'WMAP_BEGIN({optr()})'
+            if name == 'empty' and not args: return f'WMAP_EMPTY({optr()})'
         if cls == 'condvar':
             if name == 'notify_one': return f'CONDVAR_NOTIFY_ONE({optr()})'
             if name == 'notify_all': return f'CONDVAR_NOTIFY_ALL({optr()})'
@@ -782,9 +842,11 @@ class Translator:
             t = self.ctype(self.qt(sx))
             if t.cls == 'empty': continue
             if sx.get('valueCategory') == 'prvalue' and self.is_move_call(x) is None:
-                a.append(self.value_of(x, cx, t)); ps.append(f'{t.c} a{i}')
+                v = self.value_of(x, cx, t); t = self.ctype(self.qt(sx))      # (a lambda gets its C name when it is translated)
+                a.append(v); ps.append(f'{t.c} a{i}')
             else:
                 a.append(self.addr_of(x, cx)); ps.append(f'{t.c} *a{i}')
+            if t.cls == 'lambda': cn += '__' + t.c       # a lambda argument is part of the stub's name (its type is part of the signature)
         rt = self.ctype(self.qt(n))
         if cn not in self.externs:
             self.externs[cn] = f'{rt.decl("").strip()} {cn}({", ".join(ps + self.ghost_decls())})'
@@ -821,6 +883,17 @@ class Translator:
             if nm == 'operator*': return f'(*{self.E(a0, cx)})'
             if nm in ('operator==', 'operator!='):
                 return f'({self.E(a0, cx)} {nm[8:]} {self.E(args[1], cx)})'
+        if cls == 'map':
+            if nm == 'operator[]': return f'(*WMAP_INDEX({self.addr_of(a0, cx)}, {self.E(args[1], cx)}))'
+            if nm == 'operator=':
+                mv = self.is_move_call(args[1])
+                if mv is not None: return f'WMAP_ASSIGN_MOVE({self.addr_of(a0, cx)}, {self.addr_of(mv, cx)})'
+                return f'WMAP_ASSIGN_COPY({self.addr_of(a0, cx)}, {self.addr_of(args[1], cx)})'
+        if cls == 'mapit':
+            if nm == 'operator!=': return f'WMIT_NE({self.E(a0, cx)}, {self.E(args[1], cx)})'
+            if nm == 'operator==': return f'(!WMIT_NE({self.E(a0, cx)}, {self.E(args[1], cx)}))'
+            if nm == 'operator->': return f'WMIT_DEREF({self.E(a0, cx)})'
+            if nm == 'operator*': return f'(*WMIT_DEREF({self.E(a0, cx)}))'
         if cls == 'vecit':
             if nm == 'operator!=': return f'WVIT_NE({self.E(a0, cx)}, {self.E(args[1], cx)})'
             if nm == 'operator==': return f'(!WVIT_NE({self.E(a0, cx)}, {self.E(args[1], cx)}))'
@@ -906,6 +979,8 @@ class Translator:
                 return f'WLIST_SWAP({self.addr_of(args[0], cx)}, {self.addr_of(args[1], cx)})'
             if t.cls == 'vector':
                 return f'WVEC_SWAP({self.addr_of(args[0], cx)}, {self.addr_of(args[1], cx)})'
+            if t.cls == 'map':
+                return f'WMAP_SWAP({self.addr_of(args[0], cx)}, {self.addr_of(args[1], cx)})'
             if t.cls in ('ptr', 'builtin'):
                 return f'SCALAR_SWAP({self.addr_of(args[0], cx)}, {self.addr_of(args[1], cx)})'
             if t.cls == 'sp':
@@ -944,6 +1019,8 @@ class Translator:
             return self.make_shared(rt, args, n, cx)
         if rd is not None:
             d = self.byid.get(rd['id'])
+            if d is not None and (d.get('name') != rd.get('name') or (rd.get('type', {}).get('qualType') and d.get('type', {}).get('qualType') != rd['type']['qualType'])):
+                d = None          # an id that resolved into another dump must denote the same declaration
             if d is None or not self.has_body(d):
                 d2 = self.find_free_function(nm, rd.get('type', {}).get('qualType'))
                 if d2 is not None: d = d2
@@ -1034,7 +1111,7 @@ class Translator:
                 return f'CALLBACK_FROM_FUNCTOR({at.c}, {self.addr_of(args[0], cx)})'
         if t.cls in ('builtin',) and len(args) == 1:
             return self.E(args[0], cx)
-        if t.cls in ('listit', 'vecit') and len(args) == 1:
+        if t.cls in ('listit', 'vecit', 'mapit') and len(args) == 1:
             return self.E(args[0], cx)
         if t.cls == 'empty':
             return '0'
@@ -1543,7 +1620,7 @@ class Translator:
         rts = cx.ret.decl('').strip()
         proto = f'{rts} {cn}({", ".join(params) or "void"})'
         cx.lines = self.add_reach(cx.lines, cn)
-        text = proto + f'\n#ifdef USE_CONTRACT_{cn}\nCONTRACT({cn})\n#endif\n{{\n' + '\n'.join(cx.lines) + '\n}'
+        text = proto + f'\n#ifdef USE_CONTRACT_{cn}\nCONTRACT({cn})\n#endif\n{{\n#ifdef FN_ENTRY_{cn}\n  FN_ENTRY_{cn};      /* ghost hook of the spec */\n#endif\n' + '\n'.join(cx.lines) + '\n}'
         loc = decl.get('loc', {})
         self.funcs.append((cn, proto, text, f'{decl.get("name")} @ line {loc.get("line", loc.get("expansionLoc", {}).get("line", "?"))}'))
 
@@ -1611,6 +1688,7 @@ class Translator:
                 elif t.cls == 'list': out.append(f'WLIST_MEMBER_INIT(&self->{nm}, self, {nm});')
                 elif t.cls == 'condvar': out.append(f'CONDVAR_INIT(&self->{nm});')
                 elif t.cls == 'vector': out.append(f'WVEC_INIT(&self->{nm});')
+                elif t.cls == 'map': out.append(f'WMAP_MEMBER_INIT(&self->{nm}, self, {nm});')
                 else: raise Unsupported(f'default-initialisation of field {nm} : {t} in {cx.cname}')
                 continue
             e = ci['inner'][0]; s = self.skip(e)
@@ -1630,6 +1708,13 @@ class Translator:
                     if mv is not None: out.append(f'WVEC_CTOR_MOVE(&self->{nm}, {self.addr_of(mv, cx)});'); continue
                     out.append(f'WVEC_CTOR_COPY(&self->{nm}, {self.addr_of(s["inner"][0], cx)});'); continue
                 raise Unsupported(f'vector member {nm} construction in {cx.cname}')
+            if t.cls == 'map':
+                if s.get('kind') == 'CXXConstructExpr' and not s.get('inner'): out.append(f'WMAP_MEMBER_INIT(&self->{nm}, self, {nm});'); continue
+                if s.get('kind') == 'CXXConstructExpr' and len(s['inner']) == 1:
+                    mv = self.is_move_call(s['inner'][0])
+                    if mv is not None: out.append(f'WMAP_MEMBER_INIT(&self->{nm}, self, {nm}); WMAP_CTOR_MOVE(&self->{nm}, {self.addr_of(mv, cx)});'); continue
+                    out.append(f'WMAP_MEMBER_INIT(&self->{nm}, self, {nm}); WMAP_CTOR_COPY(&self->{nm}, {self.addr_of(s["inner"][0], cx)});'); continue
+                raise Unsupported(f'map member {nm} construction in {cx.cname}')
             if t.cls == 'rawbuf':
                 out.append(f'/* {nm}: raw storage, value-initialised bytes carry no object */'); continue
             if t.cls == 'atomic':
@@ -1664,6 +1749,8 @@ class Translator:
                 out.append(f'WLIST_DTOR(&self->{f["name"]});')
             elif t.cls == 'vector' and not t.ref:
                 out.append(f'WVEC_DTOR(&self->{f["name"]});')
+            elif t.cls == 'map' and not t.ref:
+                out.append(f'WMAP_DTOR(&self->{f["name"]});')
         return out
 
     # ------------------------------------------------------------------ driver
